@@ -278,7 +278,8 @@ func callUnmarshal(d depacketizer, buf []byte) depResult {
 //
 //	res md head tail0 tail1 auxPanic freshSame twinSame
 //
-// md writes the receiver's exported metadata.  freshSame: a fresh receiver given the same payload
+// md writes the receiver's exported metadata, read AFTER the call's input buffer has been overwritten.
+// freshSame: a fresh receiver given the same payload
 // returns the same result and, when the call succeeded, has the same metadata.  twinSame: a twin
 // receiver that is always handed pristine, never overwritten copies returns the same result; the
 // main receiver's input buffer is overwritten after every call.
@@ -297,7 +298,6 @@ func observeDepHist(o *Toks, mk func() depacketizer, md func(t *Toks, d depacket
 		if !r.panicked {
 			mdMain = mainR
 		}
-		mdS := mdStr(mdMain)
 		var head, t0, t1 bool
 		aux := try(func() {
 			head = mainR.IsPartitionHead(buf)
@@ -305,13 +305,21 @@ func observeDepHist(o *Toks, mk func() depacketizer, md func(t *Toks, d depacket
 			t1 = mainR.IsPartitionTail(true, buf)
 		})
 		fresh := mk()
-		rf := callUnmarshal(fresh, cloneBytes(in))
-		freshSame := r.equal(rf) && (r.panicked || r.err || mdS == mdStr(fresh))
+		fbuf := cloneBytes(in)
+		rf := callUnmarshal(fresh, fbuf)
 		rt := callUnmarshal(twin, cloneBytes(in))
 		twinSame := r.equal(rt)
+		// The receive buffer is reused for the next datagram once the calls have returned; the
+		// metadata is what the caller READS from the receiver afterwards, so it is rendered after
+		// the buffer has been overwritten (the fresh receiver's buffer likewise: like with like).
 		for i := range buf {
 			buf[i] ^= 0xA5
 		}
+		for i := range fbuf {
+			fbuf[i] ^= 0xA5
+		}
+		mdS := mdStr(mdMain)
+		freshSame := r.equal(rf) && (r.panicked || r.err || mdS == mdStr(fresh))
 		r.write(o)
 		o.Tok(mdS)
 		o.Bool(head).Bool(t0).Bool(t1).Bool(aux).Bool(freshSame).Bool(twinSame)
